@@ -208,3 +208,10 @@ Definition wit_rebuild (tracked : bool) (c_ts : Z) (ts : nat -> Z) : option bool
   | QOk [d] _ => rebuild_decision false c_ts ts 0 d
   | _ => None
   end.
+
+(* ---------- example graphs used by the non-vacuity statement of Prop/C46.v ---------- *)
+Definition ex_out (n : node) : list node :=
+  match n with 0 => [1; 2] | 1 => [3] | 2 => [3; 2] | 3 => [1; 3] | _ => [] end.
+Definition ex_ext (n : node) : nset := [n].
+Definition ex_cyc (n : node) : list node :=
+  match n with 0 => [1] | 1 => [2] | 2 => [3] | 3 => [0] | _ => [] end.
